@@ -1182,6 +1182,90 @@ def rule_S2(prog, fixture=False):
                 res.add(key, VIOLATED, "%s:%d" % (rel, a.line), what,
                         "%s advances a copy of %s; the copy is dropped at the end of %s and %s keeps the state it had before the "
                         "call: the next call starts from there again" % (a.text()[:70], src.text(), f.short, src.text()), func=f.name, extra=extra)
+    # S2c: running state kept in locals for the duration of a call (copy in, work, copy out): where a member function uses the
+    # idiom - some local initialised from a member is assigned back to that member - every local initialised from a member and
+    # modified on the way is assigned back as well
+    for f in sorted(prog.functions.values(), key=lambda f: (f.file, f.line, f.name)):
+        if f.get("implicit") or f.file.endswith("coverage.cc") or not f.cls or f.get("const") or f.get("static") or f.kind != "method":
+            continue
+        rel = prog.rel(f.file)
+        copies = []       # (VarDecl node, field name)
+        for v in f.walk():
+            if v.k != "VarDecl" or not v.decl or v.decl.get("k") != "local" or not v.c or v.tc not in ("int", "float", "bool", "enum"):
+                continue
+            dt = (v.decl.get("dt") or v.type or "")
+            if dt.startswith("const ") or dt.rstrip().endswith("&"):
+                continue
+            i0 = v.c[0].strip_all()
+            if i0.k == "MemberExpr" and i0.decl and i0.decl.get("k") == "field" and (not i0.c or i0.c[0].strip_all().k == "CXXThisExpr") \
+                    and not (i0.decl.get("dt") or "").startswith("const "):
+                copies.append((v, i0.decl["n"]))
+        if len(copies) < 2:
+            continue
+
+        def uses(e, vid):
+            return any(y.k == "DeclRefExpr" and y.decl and y.decl.get("id") == vid for y in e.walk())
+        back, modified = set(), {}
+        for x in f.walk():
+            if x.k in ("BinaryOperator", "CompoundAssignOperator") and x.op and x.op.endswith("=") and x.op not in ("==", "!=", "<=", ">=") and len(x.c) == 2:
+                l0 = x.c[0].strip_all()
+                for (v, fld) in copies:
+                    if l0.k == "MemberExpr" and l0.decl and l0.decl.get("n") == fld and (not l0.c or l0.c[0].strip_all().k == "CXXThisExpr") \
+                            and uses(x.c[1], v.decl["id"]):
+                        back.add(v.decl["id"])
+                    if l0.k == "DeclRefExpr" and l0.decl and l0.decl.get("id") == v.decl["id"]:
+                        modified.setdefault(v.decl["id"], x)
+            elif x.k == "UnaryOperator" and x.op in ("++", "--") and x.c:
+                l0 = x.c[0].strip_all()
+                for (v, fld) in copies:
+                    if l0.k == "DeclRefExpr" and l0.decl and l0.decl.get("id") == v.decl["id"]:
+                        modified.setdefault(v.decl["id"], x)
+            elif x.is_call() and x.callee:
+                pm = x.callee.get("pm", [])
+                for i, a in enumerate(x.call_args()):
+                    if (pm[i] if i < len(pm) else "val") in ("ref", "ptr"):
+                        a0 = a.strip_all()
+                        if a0.k == "UnaryOperator" and a0.op == "&" and a0.c:
+                            a0 = a0.c[0].strip_all()
+                        for (v, fld) in copies:
+                            if a0.k == "DeclRefExpr" and a0.decl and a0.decl.get("id") == v.decl["id"] and not (a.type or "").startswith("const "):
+                                modified.setdefault(v.decl["id"], x)
+        if not back:
+            continue
+        # a member that a constructor sets from its arguments is a setting; a working copy of a setting is not running state
+        settings = set()
+        cname = f.cls.rsplit("::", 1)[-1].split("<")[0]
+        for g in prog.functions.values():
+            if g.cls != f.cls or g.name.rsplit("::", 1)[-1] != cname:
+                continue
+            for ci in g.ctor_inits():
+                if ci.get("member") and any(y.k == "DeclRefExpr" and y.decl and y.decl.get("k") == "parm" for y in ci.walk()):
+                    settings.add(ci.get("member"))
+            for x in g.walk():
+                if x.k == "BinaryOperator" and x.op == "=" and len(x.c) == 2:
+                    l0 = x.c[0].strip_all()
+                    if l0.k == "MemberExpr" and l0.decl and l0.decl.get("k") == "field" and \
+                            any(y.k == "DeclRefExpr" and y.decl and y.decl.get("k") == "parm" for y in x.c[1].walk()):
+                        settings.add(l0.decl["n"])
+        for (v, fld) in copies:
+            vid = v.decl["id"]
+            if fld in settings and vid not in back:
+                continue
+            key = "S2c:%s:%s" % (fkey(f), v.decl["n"])
+            where = "%s:%d" % (rel, v.line)
+            what = "%s = %s in %s" % (v.decl["n"], fld, f.short)
+            extra = {"props": _s2_props(rel)}
+            if vid in back:
+                res.add(key, DISCHARGED, where, what, "copied in and assigned back", func=f.name, extra=extra)
+            elif vid not in modified:
+                res.add(key, DISCHARGED, where, what, "a read-only snapshot", func=f.name, extra=extra)
+            else:
+                m = modified[vid]
+                res.add(key, VIOLATED, "%s:%d" % (rel, m.line), what,
+                        "%s keeps its running state in locals and assigns them back (%s), but %s - initialised from %s and changed on the "
+                        "way (%s) - is never assigned back: %s keeps the value it had before the call, every call restarts from it"
+                        % (f.short, ", ".join(sorted(ff for (vv, ff) in copies if vv.decl["id"] in back)), v.decl["n"], fld, m.text()[:60], fld),
+                        func=f.name, extra=extra)
     res.stats["stateful_classes"] = len(stateful)
     res.stats["locals_naming_state"] = n
     return res
@@ -1432,7 +1516,7 @@ def rule_N4(prog, fixture=False):
             key = "N4:%s:%s" % (fkey(f), v.decl["n"])
             where = "%s:%d" % (rel, v.line)
             what = "%s %s in %s" % (v.decl.get("dt") or v.type, v.decl["n"], f.short)
-            extra = {"props": ["C05", "C08"]}
+            extra = {"props": ["C05", "C08", "C06"]}
             if used is not None:
                 res.add(key, VIOLATED, "%s:%d" % (rel, advanced.line), what,
                         "%s advances a %d-bit variable that indexes storage (%s): it wraps after %d steps of one and the access "
